@@ -13,9 +13,10 @@
 import GherkinVerif.Lemmas.Glue
 import GherkinVerif.Spec.TableFacts
 import GherkinVerif.Gen.ParserTable
+import GherkinVerif.KDecide
 namespace GV
 
-theorem C18_fact_one_build : Spec.oneBuildLast Gen.parserTable = true := by decide +kernel
+theorem C18_fact_one_build : Spec.oneBuildLast Gen.parserTable = true := by kdecide
 
 /-- For an accepted document the builder received exactly the tokens the main loop read, in the
     order read, each once. -/
